@@ -142,7 +142,7 @@ LostSegHandling(c, cfg, off, len) ==
       c3 == IF off >= p.lastEnd THEN [c2 EXCEPT !.h.p.lastStart = off, !.h.p.lastEnd = off + len] ELSE c2
   IN IF off + len <= c3.h.p.lastStart THEN
         LET r == LsRemove(c3.h.p.lost, off, off + len) IN
-        IF r.err THEN ExcD(c3, "ValueError") ELSE [c3 EXCEPT !.h.p.lost = r.segs]
+        IF r.err THEN c3 ELSE [c3 EXCEPT !.h.p.lost = r.segs]   \* a straddling removal is refused by the tracker: range kept
      ELSE c3
 \* _handle_fd_pdu
 HandleFd(c, cfg, pkt) ==
@@ -181,9 +181,9 @@ NoErrorEof(c, cfg) ==
        LET v == VerifyD(r1.c, cfg) IN
        IF v.c.exc # "none" THEN [c |-> v.c, regular |-> FALSE]
        ELSE IF v.ok THEN [c |-> v.c, regular |-> TRUE]
-       ELSE LET cf == DeclareFaultD(v.c, cfg, "FILE_CHECKSUM_FAILURE") IN
-            IF cf.exc # "none" \/ cfg.fhD["FILE_CHECKSUM_FAILURE"] # "ignore" THEN [c |-> cf, regular |-> FALSE]
-            ELSE [c |-> StartCheckLimit(cf), regular |-> FALSE]
+       \* the fault was declared by the verification; what follows depends on the configured handler code only
+       ELSE IF cfg.fhD["FILE_CHECKSUM_FAILURE"] # "ignore" THEN [c |-> v.c, regular |-> FALSE]
+            ELSE [c |-> StartCheckLimit(v.c), regular |-> FALSE]
   ELSE [c |-> r1.c, regular |-> TRUE]
 \* _handle_eof_pdu
 HandleEof(c, cfg, pkt) ==
@@ -267,7 +267,7 @@ TransferCompletion(c, cfg) ==
                            fstat |-> c1.h.p.fstat]) ELSE c1
   IN IF (ModeD(c) = "UNACK" /\ p.closure) \/ ModeD(c) = "ACK" THEN StepD(c2, "SENDING_FINISHED_PDU") ELSE ResetD(c2)
 \* _prepare_finished_pdu
-PrepareFinished(c) == IF c.h.q # <<>> THEN ExcD(c, "UnretrievedPdusToBeSent") ELSE EmitD(c, MkFin(c))
+PrepareFinished(c) == EmitD(c, MkFin(c))
 \* _handle_finished_pdu_sent
 FinishedSent(c) ==
   IF c.h.state = "BUSY" /\ ModeD(c) = "ACK"
